@@ -4,6 +4,8 @@ import ChiDriver.C08
 import ChiDriver.C02
 import ChiDriver.C03
 import ChiDriver.C19
+import ChiDriver.C09
+import ChiDriver.C10
 namespace ChiDriver
-def allOps : List (String × Op) := C04.ops ++ C01.ops ++ C08.ops ++ C02.ops ++ C03.ops ++ C19.ops
+def allOps : List (String × Op) := C04.ops ++ C01.ops ++ C08.ops ++ C02.ops ++ C03.ops ++ C19.ops ++ C09.ops ++ C10.ops
 end ChiDriver
